@@ -936,6 +936,27 @@ func mean(casesPath, outPath string) {
 	fmt.Printf("{\"cases\":%d}\n", len(mcs))
 }
 
+// failedPast gives a process that records ONE case the past every case has in a sweep: calls of Parse that
+// failed (at an end of line, in the middle of a line with tokens left unread, inside a string, at a number).
+// Parse has no memory, so this changes nothing about the case that follows -- unless a failed call leaves
+// something behind inside the package (a pooled parser that is not empty), which a rejection observed in a
+// sweep may depend on; the isolated re-recording then reproduces it.
+func failedPast() {
+	f := font("c")
+	for r := 0; r < 3; r++ {
+		for _, text := range []string{
+			"GSUB1: A B, M -> N\n", "GSUB2: A -> \n", "GSUB7: A -> B\n", "GSUB1: \"AB -> C\n", "GSUB4: A B -> \n",
+			"GPOS1: A -> x+99999999999\n", "GSUB5: A B -> 1@9 9@", "GSUB1: -flag A -> B\n", "GPOS2: A B -> , ,\n",
+			"GSUB6: A | B | -> 1@0 ||\n", "nonsense here\n", "GSUB3: A -> [B C\n",
+		} {
+			func() {
+				defer func() { recover() }()
+				dsl.RunParse(f.F, text, watchdog, settle)
+			}()
+		}
+	}
+}
+
 func one(casePath, outPath string) {
 	b, err := os.ReadFile(casePath)
 	if err != nil {
@@ -946,6 +967,7 @@ func one(casePath, outPath string) {
 		vio.Fatal(err)
 	}
 	out := newOut(outPath)
+	failedPast()
 	switch c.Kind {
 	case "parse":
 		runParseCases([]*Case{&c}, out, nil)
